@@ -47,3 +47,21 @@ Qed.
 Theorem reachable_valid_proof cfg acts st os :
   cfg_ok cfg -> run cfg (init cfg) acts = Some (st, os) -> valid (lv st).
 Proof. intros H1 H2. exact (proj2 (proj2 (reachable_proof cfg acts st os H1 H2))). Qed.
+
+(* one step of the compaction task, succeeding or failing (read error => nothing installed), nil or not, with level-0
+   tables arriving meanwhile: the layout stays valid and no read changes *)
+Theorem compact_step_preserves_proof tsize cfg mcl ll extra failed :
+  good_cfg cfg -> valid (add_l0 extra ll) ->
+  let ll1 := add_l0 extra ll in
+  let ll2 := fst (compact_step tsize failed cfg mcl ll extra) in
+  valid ll2 /\ (forall k, ll_get k ll2 = ll_get k ll1) /\ (forall p, ll_scan p ll2 = ll_scan p ll1) /\ view ll2 = view ll1.
+Proof.
+  intros Hcfg Hval. cbv zeta. unfold compact_step. destruct (compact tsize cfg mcl ll) as [[cs|] m] eqn:Hc; cbn [fst].
+  - destruct failed; [auto|]. destruct (compact_preserves_proof tsize cfg mcl ll extra cs m Hcfg Hval Hc) as (H1 & H2 & H3 & H4 & _). auto.
+  - auto.
+Qed.
+
+(* a failed step changes nothing at all *)
+Theorem failed_step_unchanged_proof tsize cfg mcl ll extra :
+  fst (compact_step tsize true cfg mcl ll extra) = add_l0 extra ll.
+Proof. unfold compact_step. destruct (compact tsize cfg mcl ll) as [[cs|] m]; reflexivity. Qed.
